@@ -195,8 +195,8 @@ func c01(r *core.Run) {
 		for _, f := range p.Summary(fn).Funcs {
 			allInstrs(f, func(in ssa.Instruction) {
 				mu, ok := in.(*ssa.MapUpdate)
-				if !ok {
-					return
+				if !ok || mu.Value.Type().String() != "int64" {
+					return // only the size tracker (string -> bytes counted) is a credit
 				}
 				n5++
 				r.Analysed(core.FnName(f))
